@@ -1050,6 +1050,16 @@ def eval_op_case(case):
                 raise AssertionError('out= given but a different object returned')
             return y.asarray()
         guard('mesh+out', with_out)
+        if set(sch) == {'n'} and case['dom']['kind'] == 'uniform' and not case['dom'].get('bdry') and \
+                all(m % n == 0 for n, m in zip(case['dom']['shape'], case['ran']['shape'])):
+            try:
+                with warnings.catch_warnings():
+                    warnings.simplefilter('ignore')
+                    y = op(x)
+                    case['refined'] = flat_tokens(y.asarray(), case['dtype'])
+                    case['roundtrip'] = ['ok', flat_tokens(op.inverse(y).asarray(), case['dtype'])]
+            except Exception as e:  # noqa
+                case['roundtrip'] = ['err:{}:{}'.format(type(e).__name__, str(e)[:100]), []]
         # round 5: `inverse` / `adjoint` of the opposite operator are resampling domain -> range again
         if all(n >= 2 for n in case['ran']['shape']) or set(sch) == {'n'}:
             guard('mesh+inverse', lambda: odl.Resampling(ran, dom, interp).inverse(x).asarray())
@@ -1195,6 +1205,9 @@ def e2e_lines(case):
             out.append((('grid', which, j), 'grid lo={} hi={} n={}{}'.format(fs(pfr(lo)), fs(pfr(hi)), n, flags)))
     if min(case['dom']['shape']) < 2 or case['dtype'].startswith('U'):
         return out
+    if case['api'] == 'resampling' and case.get('refined') and min(case['ran']['shape']) >= 2:
+        out.append(('roundtrip', 'resample sch={} dom={} ran={} v={}'.format(
+            ','.join(case['sch']), spec_str(case['ran']), spec_str(case['dom']), ','.join(case['refined']))))
     if case['api'] == 'resampling':
         out.append(('op', 'resample sch={} dom={} ran={} v={}'.format(
             ','.join(case['sch']), spec_str(case['dom']), spec_str(case['ran']), ','.join(case['vals']))))
@@ -1319,6 +1332,19 @@ def e2e_check(ctx, case, results, answers):
             all(m % n == 0 for n, m in zip(dom['shape'], case['ran']['shape'])):
         # nearest resampling to a k-fold refinement: entry idx is the stored entry idx // k
         ctx.hit('e2e/theorem/resampling_nearest_refine')
+        # the way back on the real code: Resampling(...).inverse(op(x)) returns x (round 5)
+        rt = case.get('roundtrip')
+        if rt is not None:
+            ctx.hit('e2e/theorem/resampling_nearest_refine_inverse')
+            if rt[0] != 'ok' or any(differs(tok, parse_c(vt) if numeric else vt)
+                                     for tok, vt in zip(rt[1], case['vals'])) or len(rt[1]) != len(case['vals']):
+                ctx.violation(key + 'Resampling.inverse after nearest refinement does not return the data',
+                              'stored {} returned {}'.format(case['vals'], rt)[:300], rc)
+            back = answers.get('roundtrip')
+            if back is not None:
+                impl = 'ok r=' + ','.join(rt[1]) if rt[0] == 'ok' else rt[0]
+                if back != impl:
+                    ctx.disagree(rc, impl, back, stream='e2e/resample-inverse')
         ks = [m // n for n, m in zip(dom['shape'], case['ran']['shape'])]
         for ridx, tok in zip(itertools.product(*[range(m) for m in case['ran']['shape']]), toks):
             flat = 0
@@ -1408,6 +1434,45 @@ def run_grid_general(ctx, with_model=True):
             if not ok:
                 ctx.disagree(dict(rc, lo=lo, hi=hi, n=n, bdry=bd), [float(x) for x in real], ans,
                              stream='e2e/grid-general')
+
+
+def run_roundtrip_nondyadic(ctx):
+    """nearest refinement by odd / non-power-of-two factors on non-dyadic grids (the coarse node IS a
+    fine node for odd k; for even k it falls, up to rounding, on a fine cell boundary — either
+    neighbour lies in the same coarse cell): ORACLES prolongation and inverse(op(x)) = x on the real
+    code (theorems resampling_nearest_refine, resampling_nearest_refine_inverse)."""
+    import odl
+    rng = ctx.rng
+    for rep in range(4 if ctx.quick else 16):
+        d = 1 + rep % 2
+        ns = [rng.choice([2, 3, 5]) for _ in range(d)]
+        ks = [rng.choice([3, 5, 6, 7]) for _ in range(d)]
+        lo = [rng.choice([0.0, -0.3, 0.1]) for _ in range(d)]
+        hi = [a + rng.choice([1.0, 0.7, 3.0]) for a in lo]
+        vals = rng.sample(range(-60, 61), int(np.prod(ns)))
+        key = 'e2e resampling nearest refine non-dyadic n={} k={} :: '.format(ns, ks)
+        rc = dict(kind='roundtrip-nondyadic')
+        ctx.hit('e2e/theorem/roundtrip-nondyadic')
+        ctx.case(('roundtrip-nondyadic', tuple(ns), tuple(ks)), None)
+        try:
+            coarse = odl.uniform_discr(lo, hi, ns)
+            fine = odl.uniform_discr(lo, hi, [n * k for n, k in zip(ns, ks)])
+            op = odl.Resampling(coarse, fine, 'nearest')
+            x = coarse.element(np.array(vals, dtype=float).reshape(ns))
+            y = op(x)
+            ya = y.asarray()
+            for ridx in itertools.product(*[range(n * k) for n, k in zip(ns, ks)]):
+                cidx = tuple(i // k for i, k in zip(ridx, ks))
+                if ya[ridx] != x.asarray()[cidx]:
+                    ctx.violation(key + 'not the piecewise constant prolongation',
+                                  'entry {} expected entry {} = {} got {}'.format(ridx, cidx, x.asarray()[cidx], ya[ridx]), rc)
+                    break
+            back = op.inverse(y).asarray()
+            if not np.array_equal(back, x.asarray()):
+                ctx.violation(key + 'Resampling.inverse after nearest refinement does not return the data',
+                              'stored {} returned {}'.format(vals, back.ravel().tolist())[:300], rc)
+        except Exception as e:  # noqa
+            ctx.violation(key + 'raised', '{}: {}'.format(type(e).__name__, str(e)[:160]), rc)
 
 
 def theorem_op_cases(rng, reps):
@@ -2944,7 +3009,7 @@ MODEL_BRANCHES = ['axis/{}/{}'.format(s_, b) for s_ in 'ln' for b in ('lo', 'hi'
      'deform-ops/derivative', 'deform-ops/adjoint', 'deform-ops/validation', 'misc/interpolator-validation',
      'misc/meshgrid-test', 'misc/optional-arg-decorator', 'misc/space-init', 'misc/element-accessors',
      'sampling/vector/tuple-mesh+out', 'sampling/vector/tuple-array+out'] + \
-    ['e2e/theorem/' + b for b in ('resampling_same_grid_identity', 'resampling_affine_exact', 'resampling_nearest_refine',
+    ['e2e/theorem/' + b for b in ('resampling_same_grid_identity', 'resampling_affine_exact', 'resampling_nearest_refine', 'resampling_nearest_refine_inverse', 'roundtrip-nondyadic',
                                   'deform_zero_identity', 'deform_affine_exact')]
 
 
@@ -2975,6 +3040,7 @@ def run(ctx):
     run_grid_general(ctx)
     run_deform_operators(ctx)
     run_misc_branches(ctx)
+    run_roundtrip_nondyadic(ctx)
     run_dtype_table(ctx)
     run_dispatch(ctx)
     run_input_classes(ctx)
@@ -3001,6 +3067,7 @@ def search(ctx, broken):
         run_grid_general(ctx, with_model=False)
         run_deform_operators(ctx)
         run_misc_branches(ctx)
+        run_roundtrip_nondyadic(ctx)
         run_dtype_table(ctx, with_model=False)
         run_dispatch(ctx, with_model=False)
         run_input_classes(ctx, with_model=False)
@@ -3032,6 +3099,8 @@ def replay(ctx, case):
         run_deform_operators(ctx)
     elif kind == 'misc-branches':
         run_misc_branches(ctx)
+    elif kind == 'roundtrip-nondyadic':
+        run_roundtrip_nondyadic(ctx)
     elif kind == 'dtype':
         run_dtype_table(ctx, with_model=False)
     elif kind == 'vector':
